@@ -92,6 +92,21 @@ CHECKS = {
                      "symbols are well formed and the mutated ones differ. Each case is run under that file name: the demanded HEADER_PROT_* code must sit on the demanded directive, a correct "
                      "guard and every .c twin must give none.",
                 note="names of length 1..2 (quick) / 1..3 (thorough) + '.h'; names starting with a digit or a dot are outside the domain"),
+    "C17": dict(ref="§4.17", tech="TLC-generated corpora of Norm.tla/Viol.tla (comments, strings, chars are width-only slots) + paired replay with two filler classes",
+                text="In the specification the inside of a comment, string or character constant is a slot of a given width: no action reads it. Every derivation of the conforming and "
+                     "single-violation corpora is rendered twice with the text inside drawn from two different filler classes (operators, brackets, semicolons, keywords, preprocessor "
+                     "words, the other quote, digits, ...; adversarial endings) and identical everything else; the two runs must give identical diagnostics.",
+                note="corpora from TLC simulation (seeded); the 42 header and #include strings are excluded as the property says"),
+    "C18": dict(ref="§4.18", tech="TLC-generated corpora (identifiers are class/width/identity slots) + Guard/Header42 products + paired replay under three renaming styles; TLC check keyword table vs spellings",
+                text="Identifiers are slots in Norm.tla: no action reads a spelling. Every derivation is rendered twice with different identifier spellings of the same class and length "
+                     "(independent names, names built around other names of the file, keyword-prefixed names); diagnostics must be identical in code, line and column. TLC checks on the "
+                     "extracted keyword table that no spelling of an ordinary identifier class is a keyword.",
+                note="renaming is applied at slot level, consistent by construction"),
+    "C19": dict(ref="§4.19", tech="TLC exploration of Locality.tla (derivation paired with header-removed / comment-inserted / function-appended transform, PairWellFormed) + paired replay evaluating the law",
+                text="Locality.tla pairs each derivation (conforming or with one violation) with a transform and the law its diagnostics must obey; TLC explores derivations x boundaries in "
+                     "simulation. Both texts are rendered with the same spellings and run; the law (shift by 12 minus INVALID_HEADER / shift by 1 from the insertion line / unchanged) is "
+                     "evaluated on the real diagnostics.",
+                note="boundaries between two consecutive empty lines and EOF-dependent violations are excluded (the law does not hold there by definition)"),
 }
 
 NOT_YET = {
